@@ -13,11 +13,10 @@ var ntNames = []string{"expr", "stmt", "list", "item", "opt", "tail", "prog", "d
 	"A", "B", "C", "D", "E", "S", "L", "R", "n1", "n_2", "Xs", "block", "seq"}
 
 // literal characters yaccgo can lex as 'c' and that are safe in every generated context we know to be intended
-// (the single quote itself is left out: yaccgo lexes it as the three characters '\' without a closing quote, which no
-// document describes; what the "right" spelling is, is not pinned by any property)
+// (the single quote is written the one way yaccgo's lexer takes it, as the three characters '\' - see Term.Key)
 // The last four are the Latin-1 characters × ÷ é § (a calculator grammar with '×' and '÷' is ordinary use): in the
 // grammar file they are two bytes of UTF-8 each, their token code is the character code (215, 247, 233, 167).
-var LitPool = []byte("+-*/()<>=,;:!&|^~?.[]{}@#ab0%\"$`_Z9\xd7\xf7\xe9\xa7")
+var LitPool = []byte("+-*/()<>=,;:!&|^~?.[]{}@#ab0%\"$`_Z9\xd7\xf7\xe9\xa7'")
 
 func uniqueNames(r *rng.R, pool []string, n int) []string {
 	p := r.Perm(len(pool))
@@ -564,7 +563,7 @@ func DecorateInt(s *Spec, r *rng.R) {
 			}
 		}
 		// user code refers to its own package-level variables
-		if r.Chance(1, 4) {
+		if r.Chance(1, 3) {
 			g := UserGlobals[r.Intn(len(UserGlobals))]
 			e = &Expr{Op: '+', L: e, R: &Expr{Op: 'g', S: g.Name, K: g.Val}}
 		}
